@@ -139,6 +139,11 @@ def cmd_origin(c, a, rec):
             pass
         time.sleep(0.2)
 
+def deaf_then_reset(c, a, rec):
+    # accepts, never reads; closes after a moment with unread data => RST
+    time.sleep(1.0)
+    c.close()
+deaf = Origin(deaf_then_reset)
 origin = Origin(cmd_origin)
 banner_origin = Origin('echo', banner=b'BANNER-FROM-ORIGIN:')
 TLSS = {'cert': f'{CERTS}/server.crt', 'key': f'{CERTS}/server.key'}
@@ -426,6 +431,38 @@ def script_tls_backpressure(lname, pa):
             pass
         s.close()
 
+def script_after_aborted_tunnel(lname, pa):
+    """a tunnel is torn down while bytes are still staged inside the proxy (its origin never read and then reset);
+    tunnels opened afterwards must carry exactly their own bytes"""
+    s, rest = open_tunnel(lname, pa, deaf.port, b'')
+    s.setblocking(False)
+    t = time.time()
+    sent = 0
+    while time.time() - t < 1.6:
+        try:
+            sent += s.send(b'A' * 65536)
+        except BlockingIOError:
+            time.sleep(0.02)
+        except OSError:
+            break
+    time.sleep(0.3)
+    s.close()
+    bad = []
+    for i in range(6):
+        tok = new_tok()
+        msg = (f'B{i:02d}-own-bytes-of-this-tunnel-' + tok).encode()
+        t2, rest2 = open_tunnel(lname, pa, origin.port, f'echo {tok}\n'.encode())
+        try:
+            t2.sendall(msg)
+            got = rest2 + recv_exact(t2, len(msg) - len(rest2), 5)
+            if got != msg:
+                bad.append((i, got[:40]))
+        finally:
+            t2.close()
+    if bad:
+        return f'after-aborted-tunnel:bytes-of-another-connection {bad[:3]} (the aborted tunnel had pushed {sent} bytes of b"A")'
+    return 'ok'
+
 def run_cell(cell):
     lname, cname, splice, bufsz, pa = cell
     out = []
@@ -439,6 +476,11 @@ def run_cell(cell):
             out.append((sname, fn()))
         except Exception as e:
             out.append((sname, f'tunnel-not-established:{e!r}'[:200]))
+    if lname in ('http', 'socks5') and cname in ('direct', 'http'):
+        try:
+            out.append(('after-aborted-tunnel', script_after_aborted_tunnel(lname, pa)))
+        except Exception as e:
+            out.append(('after-aborted-tunnel', f'exception:{e!r}'[:200]))
     if lname in ('http+tls', 'socks5+tls') and cname == 'direct':
         try:
             out.append(('tls-backpressure', script_tls_backpressure(lname, pa)))
@@ -486,10 +528,10 @@ for p in procs:
     if not p.alive():
         chk.violation('process', 'proxy-died', f'exit {p.returncode()}: {p.log()[-300:]}', {})
     p.stop()
-origin.stop(); banner_origin.stop()
+origin.stop(); banner_origin.stop(); deaf.stop()
 if evals < 100 or len(distinct) < 20:
     machinery(f'vacuous: evals={evals} distinct={len(distinct)}')
 cov = {'evaluations': evals, 'distinct_nontrivial': len(distinct), 'transitions': evals, 'traces_validated_against_impl': evals,
-       'rule': f'two real hops: listener {LISTS} x connector {CONNS} x (useSplice, bufferSize) in {modes} (quick: the full 7x8 matrix for both splice modes at 64 KiB, a rotation for the other buffer sizes); scripts: early data glued to the handshake + echo, origin-first banner, simultaneous bulk transfer of {BULK} bytes each way with position-dependent patterns and odd write sizes a receiver that does not read for 0.8 s while 8 MiB are sent at it, in each direction, ended by a half-close (thorough: + three concurrent bulk tunnels)',
+       'rule': f'two real hops: listener {LISTS} x connector {CONNS} x (useSplice, bufferSize) in {modes} (quick: the full 7x8 matrix for both splice modes at 64 KiB, a rotation for the other buffer sizes); scripts: early data glued to the handshake + echo, origin-first banner, simultaneous bulk transfer of {BULK} bytes each way with position-dependent patterns and odd write sizes a receiver that does not read for 0.8 s while 8 MiB are sent at it, in each direction, ended by a half-close six fresh tunnels right after a tunnel was torn down with bytes still staged in the proxy (origin never read, then reset) (thorough: + three concurrent bulk tunnels)',
        'cells': len(cells), 'bulk_bytes': BULK, 'schedule_control': 'kernel', 'samples': samples}
 sys.exit(chk.finish('model_checking', cov, ['E4 part: real loopback sockets, kernel scheduling uncontrolled; TPROXY and a QUIC client as first hop are out of reach (QUIC is covered as second hop)']))
